@@ -150,7 +150,7 @@ for (L, K) in ((28, 1), (28, 4), (32, 5), (32, 8)):
         params={"len": L, "chunk_length": K, "board": D, "error": "one bit at a symbolic position"})
     add(name="c03_crc_accessors_%d_%d" % (L, K), prop="C03", crate="det", expr="crate::c03::chunk_crc_accessors::<%d, %d>" % (L, K),
         unwind=18, unwindset=BOARD_LOOPS, cap_s=2400, mem_gb=12, est_s=600, family="chunk_crc_accessors", funcs=CHUNK_FUNCS,
-        witnesses=["accepted"], sched="thorough", klass="best",
+        witnesses=["accepted"], sched="always" if (L, K) == (28, 4) else "thorough", klass="best",
         params={"len": L, "chunk_length": K, "clause": "header_crc32c()/payload_crc32c() reproduce the stored words"})
 META["C03"] = {
     "pool_k": 10,
@@ -253,8 +253,8 @@ for L in range(0, 97):
     c01("c01_trg_total_%d" % L, "crate::c06::trg_total::<%d>" % L, 8, "always" if L in (0, 79, 80, 81) else "pool",
         est=8, funcs=TRG_FUNCS[:2], params={"len": L})
 for L in range(0, 41):
-    c01("c01_chunk_total_free_%d" % L, "crate::c03::chunk_total_free::<%d>" % L, 24, "always" if L in (27, 28, 32) else "pool",
-        est=40 if L >= 28 and L % 4 == 0 else 8, unwindset=BOARD_LOOPS, funcs=CHUNK_FUNCS[:1], params={"len": L, "chunk_length": "symbolic"})
+    c01("c01_chunk_total_free_%d" % L, "crate::c03::chunk_total_free::<%d>" % L, 24, "always" if L in (24, 27, 28, 32) else "pool",
+        est=40 if L >= 24 and L % 4 == 0 else 8, unwindset=BOARD_LOOPS, funcs=CHUNK_FUNCS[:1], params={"len": L, "chunk_length": "symbolic"})
 for L in (28, 32, 36):
     for K in sorted({0, L - 28, L - 27, L - 24, L - 23, 65535}):
         if K >= 0:
@@ -294,7 +294,7 @@ for P, pn in PARSERS.items():
         add(name="c08_name_utf8_%s_%d" % (pn, N), prop="C08", also=["C01"], crate="det",
             expr="crate::c08::name_utf8::<%d, %d>" % (N, P), unwind=10, unwindset=NAME_LOOPS, cap_s=2400, mem_gb=6,
             est_s=120, family="name_utf8", funcs=NAME_FUNCS, witnesses=["non-ascii-string-parsed"],
-            sched="pool" if N == 4 else "thorough", klass="core" if N <= 3 else "best",
+            sched=("always" if pn in ("adc16", "padwing") else "pool") if N == 4 else "thorough", klass="core",
             params={"parser": pn, "bytes": N, "alphabet": "all valid UTF-8"})
 for N in (0, 1, 2, 3, 4, 5):
     add(name="c08_board_names_%d" % N, prop="C08", also=["C01"], crate="det", expr="crate::c08::board_names::<%d>" % N,
